@@ -5,7 +5,7 @@ extend(out, tier, seed) is called by harness/props/c06.py with C06's Outcome.  I
 
   * builds real configurations (schemas with scalar fields, nested sub-configurations two
     levels deep and include fields at the root and in nested scopes), brings each into a seeded
-    prior state (attribute assignments and an earlier load_tree),
+    prior state (defaults, or an earlier accepted load_tree that leaves some fields user-defined),
   * performs every failing load of the list below through Config.loads and Config.load, in
     every format (json, yaml, xml, bson, pickle), on real files in a scratch directory:
         truncated document, wrong XML root element, undecodable bytes, bytes that are not a
